@@ -9,10 +9,14 @@
  *         callbacks while the call runs), then '||' conn summary ';' one dump per slot of conn->transactions (N = NULL slot) */
 #define CP_NHOOKS 21
 #define CP_MAXCALLS 64
-static unsigned char cp_script[CP_NHOOKS][CP_MAXCALLS];
-static int cp_calls[CP_NHOOKS];
-static long cp_serial;
-static int cp_first_ev;
+/* per-connection driver state (one per connection so that several connections can be interleaved / run on threads) */
+struct cp_ctx { unsigned char script[CP_NHOOKS][CP_MAXCALLS]; int calls[CP_NHOOKS]; long serial; int first_ev; };
+static __thread struct cp_ctx cp_default_ctx;
+static __thread struct cp_ctx *cp_cur;
+#define cp_script (cp_cur->script)
+#define cp_calls (cp_cur->calls)
+#define cp_serial (cp_cur->serial)
+#define cp_first_ev (cp_cur->first_ev)
 
 static long cp_txid(htp_tx_t *tx) {
     if (tx == NULL) return -1;
@@ -146,23 +150,17 @@ static void cp_status(htp_connp_t *connp, int rc, size_t consumed) {
            connp->in_buf ? connp->in_buf_size : 0, connp->in_header ? bstr_len(connp->in_header) : 0,
            connp->out_buf ? connp->out_buf_size : 0, connp->out_header ? bstr_len(connp->out_header) : 0);
 }
-static int drv_connp(char **f, int nf) {
-    if (strcmp(f[0], "connp") != 0) return 0;
-    if (nf < 4) { printf("?args"); return 1; }
-    memset(cp_script, 0, sizeof(cp_script)); memset(cp_calls, 0, sizeof(cp_calls)); cp_serial = 0;
-    if (f[2][0] != '-') {
+static void cp_load_script(char *ss) {
+    memset(cp_cur, 0, sizeof(*cp_cur));
+    if (ss[0] != '-') {
         char *save = NULL;
-        for (char *e = strtok_r(f[2], ";", &save); e; e = strtok_r(NULL, ";", &save)) {
+        for (char *e = strtok_r(ss, ";", &save); e; e = strtok_r(NULL, ";", &save)) {
             int h, n, a;
             if (sscanf(e, "%d:%d:%d", &h, &n, &a) == 3 && h >= 0 && h < CP_NHOOKS && n >= 0 && n < CP_MAXCALLS) cp_script[h][n] = (unsigned char) a;
         }
     }
-    htp_cfg_t *cfg = cp_make_cfg(f[1]);
-    htp_connp_t *connp = htp_connp_create(cfg);
-    char *save = NULL; int first = 1;
-    for (char *op = strtok_r(f[3], ",", &save); op; op = strtok_r(NULL, ",", &save)) {
-        if (!first) putchar('|');
-        first = 0;
+}
+static void cp_do_op(htp_connp_t *connp, char *op) {
         switch (op[0]) {
             case 'O': htp_connp_open(connp, "10.0.0.1", 1234, "10.0.0.2", 80, NULL); cp_status(connp, -1, 0); break;
             case 'Q': case 'S': {
@@ -196,14 +194,31 @@ static int drv_connp(char **f, int nf) {
             }
             default: printf("?op");
         }
-    }
+}
+static void cp_finish(htp_connp_t *connp) {
     printf("||fl=%x,in=%lld,out=%lld", (unsigned) connp->conn->flags, (long long) connp->conn->in_data_counter, (long long) connp->conn->out_data_counter);
     for (size_t i = 0, n = htp_list_size(connp->conn->transactions); i < n; i++) {
         htp_tx_t *tx = htp_list_get(connp->conn->transactions, i);
         putchar(';');
         if (tx == NULL) printf("N"); else cp_dump_tx(tx);
     }
+}
+static int drv_connp(char **f, int nf) {
+    if (strcmp(f[0], "connp") != 0) return 0;
+    if (nf < 4) { printf("?args"); return 1; }
+    cp_cur = &cp_default_ctx;
+    cp_load_script(f[2]);
+    htp_cfg_t *cfg = cp_make_cfg(f[1]);
+    htp_connp_t *connp = htp_connp_create(cfg);
+    char *save = NULL; int first = 1;
+    for (char *op = strtok_r(f[3], ",", &save); op; op = strtok_r(NULL, ",", &save)) {
+        if (!first) putchar('|');
+        first = 0;
+        cp_do_op(connp, op);
+    }
+    cp_finish(connp);
     htp_connp_destroy_all(connp);
     htp_config_destroy(cfg);
     return 1;
 }
+
